@@ -1,5 +1,24 @@
+//! SysProbe checks: C50 (blueprint encapsulation), C49 (limit boundaries), C51 (component locks).
+use rv_common::*;
+
+mod c49;
+mod c50;
+mod c51;
+mod pledger;
+mod probe;
+mod world;
+
 fn main() {
-    let args = rv_common::parse_args();
-    eprintln!("no check named {}", args.prop);
-    std::process::exit(2);
+    let args = parse_args();
+    let code = match args.prop.as_str() {
+        "C50" => c50::run(&args),
+        "C49" => c49::run(&args),
+        "C51" => c51::run(&args),
+        "smoke" => c50::smoke(&args),
+        other => {
+            eprintln!("rv-probe: no check named {other}");
+            2
+        }
+    };
+    std::process::exit(code);
 }
